@@ -57,6 +57,23 @@ MUTANTS = [
     ("b62", PP + "date.py", 'imports.update({"import datetime", "from typing import cast", "from dateutil.parser import isoparse"})', 'imports.update({"from typing import cast", "from dateutil.parser import isoparse"})', ["C01"]),
     ("b80", P + "parser/openapi.py", "modified_params = set(previously_modified_params) if previously_modified_params else set()", "modified_params = previously_modified_params or set()", ["C09"]),
     ("b81", P + "parser/openapi.py", "            if conflicting is None:\n                used_python_names[prop.python_name] = parameter\n                continue", "            if conflicting is None:\n                continue", ["C09"]),
+    ("b82", PP + "enum_property.py", "if not isinstance(existing, EnumProperty) or values != existing.values:", "if not isinstance(existing, EnumProperty) and values != existing.values:", ["C09"]),
+    ("b83", PP + "enum_property.py", 'output[f"VALUE_NEGATIVE_{-value}"] = value', 'output[f"VALUE_{-value}"] = value', ["C14"]),
+    ("b84", P + "parser/bodies.py", '    if isinstance(body, oai.Reference):\n        return ParseError(detail="Circular $ref in request body", data=body)\n', "", ["C06"]),
+    ("b85", PP + "__init__.py", "                next_round.append((name, data))\n                errors.append(schemas_or_err)\n                continue\n            schemas = schemas_or_err", "                errors.append(schemas_or_err)\n                continue\n            schemas = schemas_or_err", ["C07"]),
+    ("b86", PP + "__init__.py", "                errors.append(schemas_or_err)\n                continue\n            schemas = schemas_or_err\n            still_making_progress = True", "                errors.append(schemas_or_err)\n                still_making_progress = True\n                continue\n            schemas = schemas_or_err\n            still_making_progress = True", ["C06"]),
+    ("b87", PP + "__init__.py", "    final_model_errors.extend(latest_model_errors)\n", "", ["C07"]),
+    ("b88", P + "parser/openapi.py", "            parameters_by_location[param.param_in].append(prop)", "            parameters_by_location[oai.ParameterLocation.QUERY].append(prop)", ["C03"]),
+    ("b89", P + "parser/openapi.py", "        endpoint = deepcopy(endpoint)\n\n        unique_parameters", "        unique_parameters", ["C03"]),
+    ("b90", P + "parser/responses.py", "            schema_data = media_type.media_type_schema\n            break", "            schema_data = media_type.media_type_schema", ["C04"]),
+    ("b91", P + "parser/responses.py", '    else:\n        return (\n            ParseError(data=data, detail=f"Unsupported content_type {content}"),\n            schemas,\n        )', "    else:\n        schema_data = None", ["C04", "C07"]),
+    ("b92", P + "parser/openapi.py", "        if len(result.bodies) > 0:\n            result.errors.extend(body_errors)", "        if len(result.bodies) > 0:\n            pass", ["C07"]),
+    ("b93", P + "parser/openapi.py", "requires_security=bool(data.security),", "requires_security=data.security is not None,", ["C03"]),
+    ("b95", PP + "model_property.py", "        if schema_additional:\n            return ANY_ADDITIONAL_PROPERTY, schemas\n        return None, schemas", "        if not schema_additional:\n            return ANY_ADDITIONAL_PROPERTY, schemas\n        return None, schemas", ["C02"]),
+    ("b96", PP + "model_property.py", "    schemas = property_data.schemas\n\n    additional_properties", "    additional_properties", ["C08"]),
+    ("b97", PP + "const.py", "        if isinstance(converted_default, PropertyError):\n            return converted_default\n        prop.default", "        prop.default", ["C13"]),
+    ("b98", PP + "int.py", "        if isinstance(checked_default, PropertyError):\n            return checked_default\n\n        return cls(", "        return cls(", ["C13"]),
+    ("b99", PP + "schemas.py", "    parameters = evolve(parameters, classes_by_reference={ref_path: param, **parameters.classes_by_reference})", "    parameters = evolve(parameters, classes_by_reference={**parameters.classes_by_reference})", ["C20"]),
     ("b70", T + "helpers.jinja", """r\"\"\" {{ content | replace('\"\"\"', '\\\\"\\\\"\\\\"') }} \"\"\"""", 'r""" {{ content }} """', ["C05"]),
     ("b71", PP + "string.py", "        return Value(python_code=repr(utils.remove_string_escapes(value)), raw_value=value)", "        return Value(python_code=f'\"{utils.remove_string_escapes(value)}\"', raw_value=value)", ["C13"]),
     ("b72", P + "parser/openapi.py", '            summary=utils.remove_string_escapes(data.summary) if data.summary else "",', '            summary=data.summary or "",', ["C05"]),
